@@ -156,7 +156,7 @@ fn main() {
                         c[5] += 1;
                         match exp {
                             Some((ast, _)) if is_term(ast) => {
-                                let got = ast_of(&re_to_pattern(&re));
+                                let got = match guard(|| ast_of(&re_to_pattern(&re))) { Ok(g) => g, Err(p) => { bad("accepted term cannot be traversed (ill-formed value)", &p.site, json!(p.msg)); json!(null) } };
                                 if &got != ast { bad("parsed term differs from the specification's AST", "", json!({"got": got, "want": ast})); }
                                 match guard(|| RecExpr::<P>::parse(&re.to_string())) {
                                     Ok(Ok(r2)) => { if r2 != re { bad("print then parse gives a different term", "", json!({"printed": re.to_string()})); } }
@@ -164,7 +164,9 @@ fn main() {
                                     Err(p) => bad("printed term makes the parser panic", &p.site, json!(p.msg)),
                                 }
                             }
-                            _ => bad("text that is not a well-formed term is accepted by RecExpr::parse", "", json!({"parsed_as": format!("{re}")})),
+                            // (an ill-formed value may not even be printable: Display indexes the missing child)
+                            _ => bad("text that is not a well-formed term is accepted by RecExpr::parse", "",
+                                     json!({"parsed_as": guard(|| format!("{re}")).unwrap_or_else(|p| format!("<Display panics: {}>", p.msg))})),
                         }
                     }
                 }
